@@ -231,3 +231,29 @@ Lemma art_example :
   /\ map f_art (frames_of (truth (crash fixed 57 art_hist))) = [None; None]
   /\ arts (crash fixed 57 art_hist) = [] /\ art_tmps (crash fixed 57 art_hist) = [7].
 Proof. vm_compute. repeat split. Qed.
+
+(* ================================================================ the snapshot file across a crash *)
+(* create + ONE write + flush: whatever the payload length, a crash at ANY instruction of write_snapshot leaves the file
+   as it was (only before the create), EMPTY, or COMPLETE - never a proper part of the payload; the complete run leaves
+   the payload *)
+Theorem snapshot_views old payload k :
+  snap_crash old payload k = old \/ snap_crash old payload k = Some [] \/ snap_crash old payload k = Some payload.
+Proof.
+  unfold snap_crash, snap_prog.
+  destruct k as [|[|[|[|[|[|k]]]]]]; cbn [firstn fold_left sexec fst snd]; try (left; reflexivity); try (right; left; reflexivity);
+    rewrite bw_write_empty; destruct (clen payload <? CAP); cbn [fst snd bw_flush bw_buf bw_empty app]; rewrite ?app_nil_r, ?firstn_nil; cbn [fold_left fst];
+    try (right; left; reflexivity); right; right; reflexivity.
+Qed.
+Theorem snapshot_complete old payload k : (5 <= k)%nat -> snap_crash old payload k = Some payload.
+Proof.
+  intros Hk. unfold snap_crash, snap_prog.
+  destruct k as [|[|[|[|[|[|k]]]]]]; try lia; cbn [firstn fold_left sexec fst snd];
+    rewrite bw_write_empty; destruct (clen payload <? CAP); cbn [fst snd bw_flush bw_buf bw_empty app]; rewrite ?app_nil_r, ?firstn_nil; reflexivity.
+Qed.
+(* an EMPTY file is what the create leaves until the one write reaches the disk: at the write_all for a payload of
+   BufWriter capacity or more, only at the flush for a smaller one *)
+Lemma snapshot_example :
+  snap_crash None [Body (mkf 1 0 0 100 None)] 4 = Some []
+  /\ snap_crash None [Body (mkf 1 0 0 9000 None)] 3 = Some [Body (mkf 1 0 0 9000 None)]
+  /\ snap_crash (Some [NL]) [Body (mkf 1 0 0 100 None)] 0 = Some [NL].
+Proof. vm_compute. repeat split. Qed.
